@@ -447,6 +447,70 @@ def describe(c):
     return {k: c[k] for k in ("n", "p", "m", "M", "ca", "cb", "pa", "pb", "ignore") if k in c} | {"T[0][n]": c["T"][0][c["n"]]}
 
 
+
+# --------------------------------------------------------------------------------- long series
+
+
+def long_case(rng):
+    n = rng.choice([4096, 4097, 4100, 8192]) + rng.choice([0, 1, 5])
+    m = rng.choice([2, 3])
+    M = rng.choice([m + 3, 20, 40])
+    x = [rng.choice([0, 0, 0, 1, -1]) * 0.5 for _ in range(n)]
+    for _ in range(12):  # planted collective anomalies and spikes, also right at the ends
+        a = rng.choice([0, n - M, rng.randint(0, n - 1)])
+        L = rng.randint(m, M)
+        lv = rng.choice([2.0, -3.0, 4.0])
+        for i in range(max(0, a), min(n, a + L)):
+            x[i] += lv
+    for _ in range(8):
+        x[rng.choice([0, n - 1, rng.randint(0, n - 1)])] += rng.choice([7.0, -9.0])
+    return {"n": n, "m": m, "M": M, "x": x, "scale": rng.choice([0.5, 1.0, 2.0])}
+
+
+def impl_long(case):
+    from skchange.anomaly_detectors import CAPA
+
+    X = np.array(case["x"], dtype=float).reshape(-1, 1)
+    try:
+        det = CAPA(collective_penalty_scale=case["scale"], point_penalty_scale=case["scale"], min_segment_length=case["m"],
+                   max_segment_length=case["M"]).fit(X)
+        opt = np.asarray(det.transform_scores(X)).reshape(-1)
+        y = det.predict(X)
+        return {"outcome": "ok", "anoms": [(int(i.left), int(i.right)) for i in y["ilocs"]], "opt": [float(v) for v in opt],
+                "ca": float(det.collective_penalty_), "pa": float(det.point_penalty_)}
+    except Exception as ex:
+        return {"outcome": "other:" + type(ex).__name__, "msg": str(ex)[:200]}
+
+
+def oracle_long(case, r):
+    """the unpruned recursion over all admissible lengths, vectorised, from prefix sums computed here (L2 saving, baseline 0)"""
+    if r["outcome"] != "ok":
+        return f"CAPA did not run to completion: {r['outcome']} {r.get('msg', '')}"
+    x = np.array(case["x"], dtype=float)
+    n, m, M, ca, pa = case["n"], case["m"], case["M"], r["ca"], r["pa"]
+    S = np.concatenate(([0.0], np.cumsum(x)))
+    sav = lambda s, e: (S[e] - S[s]) ** 2 / (e - s)  # noqa: E731
+    F = np.zeros(n + 1)
+    for t in range(1, n + 1):
+        best = max(F[t - 1], F[t - 1] + x[t - 1] ** 2 - pa)
+        Ls = np.arange(m, min(M, t) + 1)
+        if len(Ls):
+            best = max(best, float(np.max(F[t - Ls] + sav(t - Ls, t) - ca)))
+        F[t] = best
+    opt = np.array(r["opt"])
+    bad = np.where(np.abs(opt - F[1:]) > 1e-7 * (1 + np.abs(F[1:])))[0]
+    if len(bad):
+        t = int(bad[0])
+        return f"n={n}: cumulative score at t={t} is {opt[t]!r}; the optimal total penalised saving of that prefix is {F[t + 1]!r}"
+    an = r["anoms"]
+    if any(a2 < b1 for (a1, b1), (a2, b2) in zip(an, an[1:])) or any(not (b - a == 1 or m <= b - a <= M) for a, b in an):
+        return f"n={n}: reported anomalies are not sorted / disjoint / of admissible length"
+    val = sum((x[a] ** 2 - pa) if b - a == 1 else (sav(a, b) - ca) for a, b in an)
+    if abs(val - F[n]) > 1e-7 * (1 + abs(F[n])):
+        return f"n={n}: re-evaluating the {len(an)} reported anomalies gives {val!r}; the final score / optimum is {F[n]!r}"
+    return None
+
+
 def warm():
     """load what the library imports lazily and run each detector once on a tiny fixed series, in the process the builtin
     cases are forked from (first use costs about a second otherwise)"""
@@ -499,6 +563,10 @@ def run(chk: core.Check):
     rng = core.rng_for(chk.seed, "C03/capa")
     stream("capa-table", [as_capa(gen_case(rng, nmax)) for _ in range(N // 2)], impl_capa)
     rng = core.rng_for(chk.seed, "C03/builtin")
+    rng = core.rng_for(chk.seed, "C03/long")
+    chk.run_stream("long", [long_case(rng) for _ in range({"quick": 4, "thorough": 12}[tier])], impl_long, oracle=oracle_long, site="CAPA/long",
+                   per_case_timeout=300, nontrivial=nontriv, describe=lambda c: {k: v for k, v in c.items() if k != "x"})
+    rng = core.rng_for(chk.seed, "C03/builtin")
     warm()
     chk.run_stream("builtin", core.Gen(gen_builtin, rng, min(nmax, 16), N // 3), impl_builtin, fresh=True,
                    oracle=oracle_builtin, skip=skip_builtin, nontrivial=nontriv, site="CAPA/builtin",
@@ -511,6 +579,10 @@ def replay(path):
     case = v["case"]
     if case is None:
         print(json.dumps(v, indent=1)[:3000])
+        return 0
+    if v["stream"] == "long":
+        r = impl_long(case)
+        print("oracle        :", oracle_long(case, r))
         return 0
     if v["stream"] == "builtin":
         r = impl_builtin(case)
